@@ -47,7 +47,21 @@ def check_sites(ea: EnvAnalysis, ax: Axes, conflicts) -> List[dict]:
                 idx, ext = (a, b) if ka[0] == "idx" else (b, a)
                 out.append(dict(kind="bounds test", term=t, ok=ok,
                                 detail=f"index {txt(idx, 3, 50)} is on {A[ax.axis(idx)]} [{ax.reason(idx)[:70]}]; extent {txt(ext, 3, 40)} is {A[ax.axis(ext)]} [{ax.reason(ext)[:50]}]"))
-        elif k == "index" and t.args[1].kind == "tuple" and any(x.kind == "slice" for x in t.args[1].args[0]):
+        if k == "cmp" and t.args[0] in ("<", "<=", ">", ">="):
+            # position vector vs vector of extents: (row, col) < array([E0, E1]) -- the extents must be in axis order
+            from ..axis import VEC  # noqa: F401
+            for pv, ev in ((t.args[1], t.args[2]), (t.args[2], t.args[1])):
+                e0 = strip_cast(ev)
+                if ext_name(e0) in ("jax.numpy.array", "jax.numpy.asarray", "jax.numpy.stack", "numpy.array") and e0.args[1]:
+                    e0 = strip_cast(e0.args[1][0])
+                if e0.kind in ("list", "tuple") and len(e0.args[0]) == 2 and ax.core(pv).id in ax.vec:
+                    ka0, ka1 = ax.kind(e0.args[0][0]), ax.kind(e0.args[0][1])
+                    if ka0 and ka1 and ka0[0] == "ext" and ka1[0] == "ext" and ka0[1] != ka1[1]:
+                        ok = ka0[1] == 0 and ka1[1] == 1
+                        out.append(dict(kind="bounds vector", term=t, ok=ok,
+                                        detail=f"position vector {txt(pv, 3, 40)} is (axis 0, axis 1) [{ax.why.get((ax.core(pv).id, -1), '?')[:50]}]; it is compared with "
+                                               f"({txt(e0.args[0][0], 2, 25)}, {txt(e0.args[0][1], 2, 25)}) = (extent of {A[ka0[1]]}, extent of {A[ka1[1]]})"))
+        if k == "index" and t.args[1].kind == "tuple" and any(x.kind == "slice" for x in t.args[1].args[0]):
             # G[:, :E] -- a slice bound along subscript position p must be the extent of axis p
             items = t.args[1].args[0]
             base = t.args[0]
